@@ -152,6 +152,42 @@ func runProp(prop string) (code int) {
 		}
 	}
 
+	// a violation belongs to the properties that anchor the file it is in: a rule that also runs under other
+	// properties (because it inspects files several of them share) must not raise their alarm for a construct
+	// in a file those properties do not mention
+	if prop != "all" {
+		anchors := loadAnchors(filepath.Join(verifDir(), "properties.jsonl"))
+		ruleOf := map[string]*Rule{}
+		for _, r := range allRules {
+			ruleOf[r.ID] = r
+		}
+		for _, o := range rep.Obls {
+			if o.Status != "violation" {
+				continue
+			}
+			file := o.Pos
+			if i := strings.LastIndex(file, ":"); i >= 0 {
+				file = file[:i]
+			}
+			if file == "" || file == "-" || anchors[prop][file] {
+				continue
+			}
+			r := ruleOf[o.Rule]
+			home := false // some property the rule runs under anchors the file
+			if r != nil {
+				for _, p := range append([]string{r.Prop}, r.Also...) {
+					if anchors[p][file] {
+						home = true
+					}
+				}
+			}
+			if home || (r != nil && r.Prop != prop) {
+				o.Status = "info"
+				o.Detail = "outside the files this property is anchored in (reported under the properties that anchor " + file + "): " + o.Detail
+			}
+		}
+	}
+
 	// classify against known findings
 	viol := 0
 	var lines []string
@@ -278,4 +314,34 @@ func replay(path string) int {
 
 func shortPos(s string) string {
 	return strings.TrimPrefix(s, "/repo/")
+}
+
+
+// loadAnchors reads the anchor files of every property from properties.jsonl.
+func loadAnchors(path string) map[string]map[string]bool {
+	out := map[string]map[string]bool{}
+	b, err := os.ReadFile(path)
+	if err != nil {
+		return out
+	}
+	for _, line := range strings.Split(string(b), "\n") {
+		if strings.TrimSpace(line) == "" {
+			continue
+		}
+		var p struct {
+			ID      string `json:"id"`
+			Anchors struct {
+				Files []string `json:"files"`
+			} `json:"anchors"`
+		}
+		if json.Unmarshal([]byte(line), &p) != nil {
+			continue
+		}
+		m := map[string]bool{}
+		for _, f := range p.Anchors.Files {
+			m[f] = true
+		}
+		out[p.ID] = m
+	}
+	return out
 }
